@@ -41,6 +41,7 @@ fn main() {
             "C14" | "C15" => modops::run(&case),
             "IFDATA" => ifdata_case::run(&case),
             "INCL" => incl::run(&case),
+            "LOADINC" => incl::run_loadinc(&case),
             "LOAD" => load::run_load(&case),
             "TOKENS" => load::run_tokens(&case),
             _ => panic!("unknown case kind {kind}"),
